@@ -8,6 +8,8 @@ Cases are generated in lock-step with the live system (`generate_case`) so that
 amounts such as "exactly all the cash" can be read through the public getters.
 """
 import hashlib
+import json
+import os
 import random
 import sys
 from fractions import Fraction
@@ -1832,7 +1834,7 @@ def run_ops(sc, ops, acc, prop):
 
 
 def run_case(case, acc, prop, active=None):
-    for key, fn in (('aborted_update', aborted_update_case), ('late_quote', late_quote_case)):
+    for key, fn in (('aborted_update', aborted_update_case), ('late_quote', late_quote_case), ('negative_mark', negative_mark_case)):
         if key in case:
             try:
                 fn(case[key], acc)
@@ -2084,6 +2086,82 @@ def aborted_update_case(sp, acc):
     acc.count('C05:fills_after_an_aborted_update')
 
 
+def negative_mark_script(rng):
+    """A negative price reaching the broker through the library's own data handler: one or two CSV sources, the first
+    of which quotes a held asset negative on one day; optionally another held asset the handler has no data for."""
+    return {'sources': rng.choice([1, 2, 2]), 'second_has_asset': rng.random() < 0.6, 'nodata_first': rng.random() < 0.5,
+            'nodata_held': rng.random() < 0.5, 'qty': rng.randint(1, 300), 'price': float(rng.randint(5, 400)),
+            'neg': -float(rng.choice([0.5, 3, 120])), 'tod': rng.choice(['15:00', '21:00', '09:00'])}
+
+
+def negative_mark_case(sp, acc):
+    import shutil
+    import tempfile
+    from qstrader.broker.simulated_broker import SimulatedBroker
+    from qstrader.broker.transaction.transaction import Transaction
+    from qstrader.exchange.simulated_exchange import SimulatedExchange
+    from qstrader.broker.fee_model.zero_fee_model import ZeroFeeModel
+    from qstrader.data.backtest_data_handler import BacktestDataHandler
+    from qstrader.data.daily_bar_csv import CSVDailyBarDataSource
+    from qstrader.execution.order import Order
+    from qsmon import datawl
+    days = ['2021-03-01', '2021-03-02', '2021-03-03', '2021-03-04', '2021-03-05']
+    bad = days[2]
+    d1, d2 = tempfile.mkdtemp(prefix='qsmon-neg-'), tempfile.mkdtemp(prefix='qsmon-neg-')
+    try:
+        p = sp['price']
+        rows1 = [{'date': d, 'open': (sp['neg'] if d == bad else p + i), 'close': (sp['neg'] if d == bad else p + i + 0.5),
+                  'adj': (sp['neg'] if d == bad else p + i + 0.5)} for i, d in enumerate(days)]
+        datawl.write_csv(os.path.join(d1, 'XXX.csv'), rows1, list(range(len(rows1))))
+        datawl.write_csv(os.path.join(d1, 'YYY.csv'), [{'date': d, 'open': 40.0 + i, 'close': 41.0 + i, 'adj': 41.0 + i}
+                                                       for i, d in enumerate(days)], list(range(len(days))))
+        other = 'XXX' if sp['second_has_asset'] else 'ZZZ'
+        datawl.write_csv(os.path.join(d2, other + '.csv'), [{'date': d, 'open': 2 * p + i, 'close': 2 * p + i + 1.0,
+                                                            'adj': 2 * p + i + 1.0} for i, d in enumerate(days)], list(range(len(days))))
+        sources = [CSVDailyBarDataSource(d1, None, adjust_prices=False)]
+        if sp['sources'] == 2:
+            sources.append(CSVDailyBarDataSource(d2, None, adjust_prices=False))
+        handler = BacktestDataHandler(None, data_sources=sources)
+        t0 = ts(days[1] + ' 15:00:00')
+        b = SimulatedBroker(t0, SimulatedExchange(t0), handler, initial_funds=1e8, fee_model=ZeroFeeModel())
+        b.create_portfolio('p')
+        b.subscribe_funds_to_portfolio('p', 5e7)
+        pf = b.portfolios['p']
+        if sp['nodata_held'] and sp['nodata_first']:
+            pf.transact_asset(Transaction('EQ:NODATA', 10, t0, 7.0, 'n1', commission=0.0))
+        b.submit_order('p', Order(t0, 'EQ:YYY', 5))
+        b.submit_order('p', Order(t0, 'EQ:XXX', sp['qty']))
+        b.update(t0)
+        if sp['nodata_held'] and not sp['nodata_first']:
+            pf.transact_asset(Transaction('EQ:NODATA', 10, t0, 7.0, 'n1', commission=0.0))
+        t1 = ts(bad + ' ' + sp['tod'] + ':00')
+        if t1.hour < 14:
+            t1 = ts(bad + ' 15:30:00')            # the negative bar is in force from its open
+        snap = lambda: json.dumps({'cash': float(pf.cash).hex(), 'hold': {a: [d['quantity'], repr(d['market_value']), repr(d['unrealised_pnl'])]
+                                                                            for a, d in pf.portfolio_to_dict().items()},
+                                   'hist': len(pf.history), 'queue': b.open_orders['p'].qsize()}, sort_keys=True)
+        before = snap()
+        try:
+            b.update(t1)
+        except ValueError:
+            acc.count('C15:negative_marks_through_the_real_data_handler_refused')
+        except Exception as e:
+            raise Violation('C15', 'refusal-wrong-type/update/real-handler/%s' % type(e).__name__, 'update at %s with EQ:XXX quoted %s by '
+                            'the first data source raised %r' % (t1, sp['neg'], e), sp)
+        else:
+            raise Violation('C15', 'negative-mark-accepted/real-handler', 'EQ:XXX is quoted %s by the first data source at %s (%d source(s), '
+                            'second source %s): broker.update accepted it; holdings now %s'
+                            % (sp['neg'], t1, sp['sources'], 'also carries XXX' if sp['second_has_asset'] else 'does not carry XXX',
+                               {a: d['market_value'] for a, d in pf.portfolio_to_dict().items()}), sp)
+        after = snap()
+        if after != before:
+            raise Violation('C15', 'partial-update/update/negative-mark/real-handler', 'the update refused for the negative quote of EQ:XXX '
+                            'changed state: %s -> %s' % (before, after), sp)
+    finally:
+        shutil.rmtree(d1, ignore_errors=True)
+        shutil.rmtree(d2, ignore_errors=True)
+
+
 def shard_broker(spec, acc, prop, faults):
     rng = random.Random(spec['rng'])
     import time
@@ -2094,6 +2172,13 @@ def shard_broker(spec, acc, prop, faults):
             break
         nops = rng.choice([10, 20, 40, 40, 80, 120, 200])
         generate_and_run(rng, acc, prop, faults, nops)
+    if prop == 'C15':
+        for i in range(max(4, spec['cases'] // 3)):
+            sp = negative_mark_script(rng)
+            try:
+                negative_mark_case(sp, acc)
+            except Violation as v:
+                acc.violation(v, {'negative_mark': sp})
     if prop == 'C04':
         for i in range(spec['cases'] * 2):
             sp = late_quote_script(rng)
